@@ -18,7 +18,7 @@ def run(tier, seed):
     quick = tier == 'quick'
     tbuild = common.build_mmdump()
     mirs = [common.dump_mir('mimium_lang')[0], common.dump_mir('state_tree')[0]]
-    groups = ['op', 'st', 'ct']
+    groups = ['op', 'st', 'ct', 'cl', 'fx']
     files = common.corpus_files(groups)
     steps = 3 if quick else 6
     budget = 60 if quick else 300
@@ -27,12 +27,13 @@ def run(tier, seed):
     st_steps = 4 if quick else 8
     st = run_jobs([('selftest', dict(path=f, mir_paths=mirs, steps=st_steps, seed=seed)) for f in files])
     bad_enc = [r for r in st if r['status'] == 'mismatch']
+    load_mismatch = [r for r in st if r['status'] == 'accept_mismatch']
     enc_unsupported = {r['program']: r.get('detail', '') for r in st if r['status'] in ('unsupported', 'error')}
     # 2. symbolic analysis: BMC from the initial state + one inductive step from arbitrary equal state words
     jobs = []
     for f in files:
         name = os.path.basename(f)[:-4]
-        if any(r['program'] == name and r['status'] == 'mismatch' for r in st):
+        if any(r['program'] == name and r['status'] in ('mismatch', 'accept_mismatch') for r in st):
             continue
         jobs.append(('analysis', dict(path=f, mir_paths=mirs, steps=steps, mode='bmc', query_timeout_ms=qto, time_budget_s=budget, seed=seed)))
         jobs.append(('analysis', dict(path=f, mir_paths=mirs, steps=1, mode='inductive', query_timeout_ms=qto, time_budget_s=budget, seed=seed)))
@@ -47,7 +48,7 @@ def run(tier, seed):
     samples = []
     nprog = set()
     for r in res:
-        path = os.path.join(common.VERIF, 'corpus', r['program'] + '.mmm')
+        path = r.get('path') or os.path.join(common.VERIF, 'corpus', r['program'] + '.mmm')
         for k in stats:
             stats[k] += (r.get('solver') or {}).get(k, 0)
         functions.update(r.get('functions') or {})
@@ -94,6 +95,8 @@ def run(tier, seed):
         if len(samples) < 6 and r['mode'] == 'bmc':
             samples.append(dict(program=r['program'], steps=r['steps'], paths=r['paths'], equalities_checked=r.get('checks'),
                                 decided_syntactically=r.get('checks_trivial'), divergences=len(r.get('divergences', []))))
+    for r in load_mismatch:
+        accept_mismatch.append((r['program'], r['detail']))
     for prog, acc in accept_mismatch:
         rec = dict(program=prog, what='accepted by one backend only', accept=acc)
         if prog in known:
